@@ -167,6 +167,9 @@ def r_same_result(repo, rep, R='R12.3'):
 
 
 def check(repo, rep, tier):
+    from ..lints import r_import_time_language
+    n_lang = r_import_time_language(repo, rep, 'R12.3', READER_FILES)
+    rep.floor('reader functions scanned for import-time language defaults', n_lang, 30)
     m = ParseModel(repo)
     rep.rule('R12.1', 'C++ push sites store the rule index of the grammar result (binary r.rule_id, unary u.rule_id, goal copies)')
     rep.rule('R12.2', 'glue: enumerate from 0 without filter; scaffold copies one tuple; cache stores vector unchanged; retrieve_tree indexes cache[key][rule_id]')
